@@ -478,9 +478,11 @@ impl Builder {
         match version.mft_publish {
             Publish::Missing => { }
             Publish::Corrupt => {
+                // A stray trailing byte: `Manifest::decode` ignores it, so
+                // this is still the same manifest (with other bytes).
                 let mut mft = mft;
                 mft.push(0);
-                files.push(BuiltFile { uri: ca.mft_uri(), name: ca.mft.clone(), bytes: mft, meaning: Meaning::Junk });
+                files.push(BuiltFile { uri: ca.mft_uri(), name: ca.mft.clone(), bytes: mft, meaning: mft_meaning });
             }
             _ => files.push(BuiltFile { uri: ca.mft_uri(), name: ca.mft.clone(), bytes: mft, meaning: mft_meaning }),
         }
